@@ -5,7 +5,7 @@
    group / Everyone strings and masks are regenerated from the source (gen/K_sd.v); Spec/Dtyp.v is the independent
    strict parser written from MS-DTYP 2.4.2.2 / 2.4.4 / 2.4.5 / 2.4.6. *)
 From V Require Import Prelude.Base Prelude.PyInt gen.K_sd gen.C_sd Model.Types Model.SecDesc Spec.Dtyp.
-From V Require Import Proofs.SecDescRegex Proofs.SecDescK Proofs.SecDescStr Proofs.SecDescLayout Proofs.SecDescMain.
+From V Require Import Proofs.SecDescRegex Proofs.SecDescK Proofs.SecDescStr Proofs.SecDescLayout Proofs.SecDescMain Proofs.SecDescZeros.
 
 (* ---- K: what the regenerated source fragments are ----------------------------------------------------------- *)
 
@@ -136,6 +136,18 @@ Theorem C08_accepts : forall (r : Z) (a : pystr) (subs : list pystr),
     Ok {| sid_rev := r - 48; sid_auth := dec_val 0 a; sid_subs := map (dec_val 0) subs |}.
 Proof. exact sid_parse_complete. Qed.
 Print Assumptions C08_accepts.
+
+(* an accepted string is the canonical string of its SID up to leading zeros of its numeric parts: sid_print of the result is
+   the accepted string with every part stripped of leading '0' (strip0 keeps the last character, so "000" -> "0") *)
+Theorem C08_leading_zeros : forall str s, sid_parse str = Ok s ->
+  exists (r : Z) (a : pystr) (subs : list pystr),
+    str = [83; 45; r; 45] ++ a ++ concat (map (cons 45) subs) /\
+    sid_print s = [83; 45; r; 45] ++ strip0 a ++ concat (map (fun p => 45 :: strip0 p) subs).
+Proof. exact accepted_up_to_zeros. Qed.
+Print Assumptions C08_leading_zeros.
+
+Example C08_strip0_ex : strip0 [48; 48; 49; 48] = [49; 48] /\ strip0 [48; 48; 48] = [48] /\ strip0 [53] = [53].
+Proof. repeat split; reflexivity. Qed.
 
 (* ---- the property's near-miss list ----------------------------------------------------------------------------------- *)
 (* "S-1-5": no sub-authority *)
